@@ -141,7 +141,12 @@ func init() {
 			func(c *Ctx) { c.ruleAssert("R-ASSERT", c.scopeData()); c.R.Floor("R-ASSERT", 14) },
 			func(c *Ctx) { c.ruleNilGuard("R-NILGUARD", c.scopeData()); c.R.Floor("R-NILGUARD", 30) },
 			func(c *Ctx) { c.ruleMapNil("R-MAPNIL", c.scopePkg("schema")); c.R.Floor("R-MAPNIL", 10) },
-			func(c *Ctx) { c.ruleExplicit("R-EXPLICIT", c.M, c.entryData(), c.dataTaint(c.entryData()), true); c.R.Floor("R-EXPLICIT", 8) },
+			func(c *Ctx) {
+				c.ruleExplicit("R-EXPLICIT", c.M, c.entryData(), c.dataTaint(c.entryData()), true)
+				c.R.Floor("R-EXPLICIT", 8)
+			},
+			func(c *Ctx) { c.ruleReflect("R-REFLECT", c.scopeData()); c.R.Floor("R-REFLECT", 10) },
+			func(c *Ctx) { c.ruleHashKey("R-HASHKEY", c.scopeData()); c.R.Floor("R-HASHKEY", 1) },
 		},
 	})
 	register(&PropSpec{
@@ -155,6 +160,8 @@ func init() {
 			"the 60 s send time-out arm of sendRuntimeMessage (transport stall) is outside the premise"},
 		Rules: []func(*Ctx){
 			func(c *Ctx) { c.ruleLockset("R-LOCKSET", c.lockTargets("atp", "schema")); c.R.Floor("R-LOCKSET", 15) },
+			func(c *Ctx) { c.ruleExactlyOne("R-EXACTLYONE") },
+			func(c *Ctx) { c.ruleStepDom("R-DOM") },
 		},
 	})
 	register(&PropSpec{
@@ -377,7 +384,10 @@ func init() {
 		Assumptions: []string{wellFormed, "library effects come from a hand-written table; an unclassified library callee fails the check"},
 		Rules: []func(*Ctx){
 			func(c *Ctx) { c.ruleMapOrder("R-MAPORDER", c.M, c.scopePkg("schema")); c.R.Floor("R-MAPORDER", 30) },
-			func(c *Ctx) { c.ruleEffect("R-EFFECT", c.entryData(pureAPI...), false, true); c.R.Floor("R-EFFECT", 100) },
+			func(c *Ctx) {
+				c.ruleEffect("R-EFFECT", c.entryData(pureAPI...), false, true)
+				c.R.Floor("R-EFFECT", 100)
+			},
 		},
 	})
 	register(&PropSpec{
